@@ -31,6 +31,7 @@ type c04Call struct {
 	CancelAt  int    `json:"cancel_ms"`  // -1: never cancelled
 	ReleaseAt int    `json:"release_ms"` // sdk mode: handler released (-1 never, until cancelled/closed); script: response instant (-1 never)
 	Peer      string `json:"peer,omitempty"` // script mode: answer | never | late | stall-notify | stall-notify-forever
+	Dir       string `json:"dir,omitempty"`  // sdk mode: "" client->server tool call; "s2c": server->client call issued inside a tool handler
 }
 
 type c04Spec struct {
@@ -38,6 +39,7 @@ type c04Spec struct {
 	Transport string    `json:"transport,omitempty"`
 	Calls     []c04Call `json:"calls"`
 	EndAt     int       `json:"end_ms"`
+	NoStandaloneSSE bool `json:"no_standalone_sse,omitempty"`
 }
 
 func genC04(r *vh.Rand) c04Spec {
@@ -54,6 +56,9 @@ func genC04(r *vh.Rand) c04Spec {
 			cs.CancelAt = cs.StartAt + r.Intn(7)
 		}
 		if s.Mode == "sdk" {
+			if r.Chance(1, 3) {
+				cs.Dir = "s2c"
+			}
 			if cs.CancelAt < 0 || r.Chance(1, 3) {
 				cs.ReleaseAt = cs.StartAt + r.Intn(8) // may tie with or precede the cancel
 			}
@@ -79,6 +84,9 @@ func genC04(r *vh.Rand) c04Spec {
 		s.Calls = append(s.Calls, cs)
 	}
 	s.EndAt = 20
+	if s.Transport == "http" && r.Bool() {
+		s.NoStandaloneSSE = true // server->client traffic can then only travel on request streams
+	}
 	return s
 }
 
@@ -153,8 +161,55 @@ func runC04SDK(c *vh.Case, spec c04Spec) {
 		log.Add("handler-finish", "n", a.Nonce)
 		return &mcp.CallToolResult{Content: []mcp.Content{&mcp.TextContent{Text: fmt.Sprintf("nonce-%d", a.Nonce)}}}, nil
 	})
-	client := mcp.NewClient(&mcp.Implementation{Name: "c", Version: "1"}, nil)
-	pair, err := vhm.Connect(ctx, vhm.PairOpts{Kind: spec.Transport, Server: server, Client: client, ClientVersion: "2025-06-18"})
+	// s2c: the tool handler itself issues a (cancellable) sampling request to the client
+	icancel := map[int]context.CancelFunc{}
+	ictx := map[int]context.Context{}
+	var imu sync.Mutex
+	server.AddTool(&mcp.Tool{Name: "nest", InputSchema: json.RawMessage(`{"type":"object"}`)}, func(ctx context.Context, req *mcp.CallToolRequest) (*mcp.CallToolResult, error) {
+		var a struct{ Nonce int }
+		json.Unmarshal(req.Params.Arguments, &a)
+		// the nested request's context: the handler's own, cancelled when the harness cancels nonce n
+		cctx, cancel := context.WithCancel(ctx)
+		defer cancel()
+		imu.Lock()
+		h := ictx[a.Nonce]
+		imu.Unlock()
+		if h != nil {
+			stop := context.AfterFunc(h, cancel)
+			defer stop()
+		}
+		log.Add("call-start", "n", a.Nonce)
+		res, err := req.Session.CreateMessage(cctx, &mcp.CreateMessageParams{Meta: mcp.Meta{"nonce": a.Nonce}, MaxTokens: 1,
+			Messages: []*mcp.SamplingMessage{{Role: "user", Content: &mcp.TextContent{Text: "x"}}}})
+		text := ""
+		if err == nil {
+			if tc, ok := res.Content.(*mcp.TextContent); ok {
+				text = tc.Text
+			}
+		}
+		log.Add("call-return", "n", a.Nonce, "outcome", c04Classify(text, err))
+		// The cancellation notice is sent asynchronously and, on streamable HTTP, travels on this
+		// request's stream: keep the outer request open for a moment instead of racing it.
+		time.Sleep(ms(1))
+		return &mcp.CallToolResult{Content: []mcp.Content{&mcp.TextContent{Text: "outer-done"}}}, nil
+	})
+	client := mcp.NewClient(&mcp.Implementation{Name: "c", Version: "1"}, &mcp.ClientOptions{
+		CreateMessageHandler: func(ctx context.Context, req *mcp.CreateMessageRequest) (*mcp.CreateMessageResult, error) {
+			n := 0
+			if f, ok := req.Params.Meta["nonce"].(float64); ok {
+				n = int(f)
+			}
+			log.Add("handler-start", "n", n)
+			select {
+			case <-ctx.Done():
+				log.Add("handler-ctx-done", "n", n, "cause", fmt.Sprint(context.Cause(ctx)))
+			case <-release[n]:
+			}
+			log.Add("handler-finish", "n", n)
+			return &mcp.CreateMessageResult{Model: "m", Role: "assistant", Content: &mcp.TextContent{Text: fmt.Sprintf("nonce-%d", n)}}, nil
+		},
+	})
+	pair, err := vhm.Connect(ctx, vhm.PairOpts{Kind: spec.Transport, Server: server, Client: client, ClientVersion: "2025-06-18", DisableStandaloneSSE: spec.NoStandaloneSSE})
 	if err != nil {
 		c.Inconclusive("connect %s: %v", spec.Transport, err)
 		return
@@ -170,6 +225,11 @@ func runC04SDK(c *vh.Case, spec c04Spec) {
 			time.Sleep(ms(call.StartAt))
 			cctx, cancel := context.WithCancel(ctx)
 			defer cancel()
+			if call.Dir == "s2c" {
+				imu.Lock()
+				ictx[call.N], icancel[call.N] = cctx, cancel
+				imu.Unlock()
+			}
 			if call.CancelAt >= 0 {
 				bg.Add(1)
 				go func() {
@@ -187,6 +247,14 @@ func runC04SDK(c *vh.Case, spec c04Spec) {
 					log.Add("release", "n", call.N)
 					close(release[call.N])
 				}()
+			}
+			if call.Dir == "s2c" {
+				// the outer tool call is never cancelled; the cancel goroutine above cancels cctx,
+				// which is relayed to the context of the nested server->client request
+				if _, err := cs.CallTool(ctx, &mcp.CallToolParams{Name: "nest", Arguments: map[string]any{"nonce": call.N}}); err != nil {
+					log.Add("outer-call-failed", "n", call.N, "err", err.Error())
+				}
+				return
 			}
 			log.Add("call-start", "n", call.N)
 			res, err := cs.CallTool(cctx, &mcp.CallToolParams{Name: "park", Arguments: map[string]any{"nonce": call.N}})
